@@ -100,10 +100,11 @@ PROPS = {
             'token table and parser core: no index / shift / subtraction failure in Converter, LexedStr accessors, Input, TokenSet (kinds >= 128 are never members), Parser',
             'grammar, every function and every token context: each assert!, p.bump(K), unreachable!, u8/u32/usize arithmetic is safe',
             'grammar: every one of the 13 loops strictly decreases the number of remaining tokens on each back edge (=> work bounded by tokens x nesting)',
+            'grammar: the mutual recursion terminates: every one of the 92 grammar functions has the measure (remaining tokens at entry, rank) and Verus proves, at every call site, that the callee is entered after a token was consumed or has a smaller rank (rank table found by tools/rank_search.py, re-checked on every run; guards that all callers establish are preconditions of cast_expr, modified_gate_call_expr, array_type_spec; gate_call_expr has a cursor-dependent rank)',
             'parsing.rs: the u32 conversions and TextRange::new of the lexical-diagnostic conversion never fail (unit SYNX)',
         ],
         not_decided=[
-            'termination of the mutual recursion of the grammar (exec_allows_no_decreases_clause is declared on recursive functions; counted in assumption_scan)',
+            'the loop of the higher-order helper `delimited` (trusted; used once, by call_arg_list): it is assumed to invoke its closure only on parser states reached from its own entry by consuming tokens',
             'marker / DropBomb discipline, event::process, TopEntryPoint::parse balance assertions, Builder, rowan tree construction, validation.rs (e.g. Literal::token().unwrap(); its nested `unquote` has a BOUNDED stand-in in the thorough tier only: Kani on the extracted text, every text of <= 3 ASCII bytes — labelled bounded, never counted as proved)',
             'Parser::nth step-limit assertion (unreachable once every loop and recursion makes progress; not proved)',
             'native stack depth',
